@@ -19,6 +19,8 @@ namespace EaselModel.Dist
 class Num (α : Type) where
   exp : α → α
   log : α → α
+  log1p : α → α
+  expm1 : α → α
   pow : α → α → α
   sqrt : α → α
   floor : α → α
